@@ -374,3 +374,6 @@ def main(sess):
             c03_formula.run(sess)
     except ImportError:
         pass
+    if want('e2e'):
+        from drivers import e2e
+        e2e.family_for(sess, 'C03')
